@@ -485,8 +485,11 @@ class Check:
         cov.update(self.extra)
         ev = dict(property_id=self.prop, tier=self.tier, seed=self.seed, level=self.level, coverage=cov,
                   assumptions=self.assumptions, wall_s=round(wall, 2), violations=len(self.violations))
-        os.makedirs(os.path.join(VERIF, "evidence"), exist_ok=True)
-        json.dump(ev, open(os.path.join(VERIF, "evidence", self.prop + ".json"), "w"), indent=1, sort_keys=True)
+        # VERIF_EVIDENCE_DIR: only for the sensitivity sweeps (mutants.py / seedcheck.py), whose runs on deliberately broken
+        # trees must not overwrite the evidence of the real tree
+        edir = os.environ.get("VERIF_EVIDENCE_DIR") or os.path.join(VERIF, "evidence")
+        os.makedirs(edir, exist_ok=True)
+        json.dump(ev, open(os.path.join(edir, self.prop + ".json"), "w"), indent=1, sort_keys=True)
         log("%s %s: states=%d transitions=%d impl-traces=%d violations=%d known=%d wall=%.1fs" % (
             self.prop, self.tier, self.states, self.transitions, self.traces, len(self.violations),
             len(seen), wall))
